@@ -63,7 +63,7 @@ def main(prop, tier):
             matrix_viols, extra['subprocess_matrix'] = cli_matrix(tier)
         batch = D.Batch(histsim, prop, tier).open()
         tally = D.Tally()
-        digests, rdigests = {}, {}
+        digests, rdigests, walls = {}, {}, {}
         opseqs, triples = set(), set()
         samples = []
         viols = []
@@ -91,6 +91,7 @@ def main(prop, tier):
             sim_seconds += rec.get('sim_seconds') or 0.0
             digests[pl['seed']] = rec.get('digest')
             rdigests[pl['seed']] = rec.get('result_digest')
+            walls[pl['seed']] = rec.get('wall_s') or 0.0
             sig = ','.join(rec.get('op_kinds') or [])
             if len(rec.get('op_kinds') or []) >= 2:
                 opseqs.add(sig)
@@ -107,7 +108,9 @@ def main(prop, tier):
         explore_wall = time.monotonic() - t0
         # ---- determinism + hash-seed independence ------------------------------------------
         det = {'pairs': 0, 'mismatches': 0}
-        seeds = sorted(digests)[::max(1, len(digests) // max(1, det_pairs))][:det_pairs]
+        fastish = sorted(s for s in digests if walls.get(s, 0.0) < (4.0 if tier == 'quick' else 30.0))
+        seeds = fastish[::max(1, len(fastish) // max(1, det_pairs))][:det_pairs]
+        phase_t = {'explore': round(explore_wall, 1)}
         for idx, pl, rec in batch.run(({'seed': s, 'tier': tier, 'parse_orders': 4 if tier == 'quick' else 16} for s in reversed(seeds)), per_run):
             if rec.get('harness_error'):
                 continue
@@ -207,7 +210,7 @@ def main(prop, tier):
                     print(f'VIOLATION property={prop} replay={path}')
                     print(f"  {v['cls']}/{v['cause']}: {v['detail']}")
                     print(f"  seed={pl['seed']} choices {len(rec['choices'])} -> {len(choices)} after {used} shrink replays; "
-                          f"ops: {[_short(o) for o in (final.get('history') or {}).get('ops', [])]}")
+                          f"ops: {[_short(o) for i_, o in enumerate((final.get('history') or {}).get('ops', [])) if i_ not in set(payload.get('skip_ops') or [])]}")
                     exit_code = 1
             finally:
                 batch2.close()
@@ -231,6 +234,7 @@ def main(prop, tier):
             'parser': tally.sub('parse_'),
             'reference_cache': tally.sub('ref_'),
             'determinism': det,
+            'history_wall_s': {'max': max(walls.values()) if walls else 0, 'mean': round(sum(walls.values()) / max(1, len(walls)), 3)},
             'components': COMPONENTS,
             'known_findings_seen': list(known_seen),
             'harness_errors': len(batch.harness_errors),
@@ -295,6 +299,7 @@ def cli_matrix(tier):
             'ok': WL.GEO_BASE,
             'reject': WL.GEO_BASE + 'Utilization Factor, 1.5\n',
             'calc_fail': WL.GEO_BASE + 'Gradient 1, 2\nReservoir Depth, 0.5\n',
+            'bare_sys_exit': WL.GEO_BASE + 'Reservoir Model, 5\nReservoir Output File Name, /nonexistent/profile.txt\n',
             'missing': None,
         }
         forms = histsim.OUT_FORMS
@@ -366,7 +371,7 @@ def cli_matrix(tier):
                     V(c, 'stray_file', 'cli', f'unexpected new files {stray[:4]}')
             else:
                 if o['rc'] == 0:
-                    V(c, 'exit_status', 'cli_failure_exit_0', 'exit status 0 although the simulation failed')
+                    V(c, 'exit_status', 'cli_exit_0_on_failure', 'exit status 0 although the simulation failed')
                 if o['report'] is not None:
                     V(c, 'report_written_on_failure', 'cli', f"failing run left a report at {o['full']}")
         info = {'cases': len(cases), 'exhaustive_over': 'request class x output form x cwd kind', 'reference_report_available': ref_report is not None,
